@@ -30,6 +30,9 @@ type Ctx struct {
 	MayBeRefused bool // the spec breaks a restriction goag documents: refusing it is fine
 	NeedClient   bool
 
+	// RealisticHeaders: names of header parameters real documents declare (per check:
+	// some harnesses set Content-Type themselves)
+	RealisticHeaders []string
 	// JSONTimeLayouts: date-time schemas of the JSON dialect may carry x-goag-go-time-format
 	JSONTimeLayouts bool
 	// LowerCompNames: also draw component keys that start with a lower-case letter
@@ -724,6 +727,12 @@ func (c *Ctx) ParamSchema(in string, label string) *Schema {
 	p := c.paramPrim(label + "_prim")
 	c.Tag("param:" + in + ":" + p.Name)
 	s := p.Schema()
+	// `pattern` is written in the regular-expression dialect of ECMA 262 (look-ahead and all);
+	// this one admits every string
+	if p.Type == "string" && p.Format == "" && rapid.IntRange(0, 5).Draw(t, label+"_pattern") == 0 {
+		s.Pattern = "^(?=[\\s\\S]*$)[\\s\\S]*$"
+		c.Tag("param:pattern")
+	}
 	// (RFC1123Z text contains a comma: not inside form-style arrays)
 	isArray := in == "query" && rapid.IntRange(0, 3).Draw(t, label+"_array") == 0 && p.Layout() != "time.RFC1123Z"
 	// (arrays of a string component: the one array whose elements need no parsing, only a conversion)
